@@ -51,12 +51,12 @@ theorem add_own {c s s' t l o op r} (hc : c.ownerByOr = false) (r0 : Reach c s) 
     ((s'.th t).op ≠ .none ∧ (AddInv op r (s'.th t) ∨ LP c op r (s, t, l, o))) ∨
     ((s'.th t).op = .none ∧ (o = r → LP c op r (s, t, l, o))) := by
   have hN := invN_reach hc r0 t; simp only [TN] at hN
-  obtain ⟨n1, n2, n3, n4, n5, n6, n7, n8, n9, n10, n11, n12, n13, n14⟩ := hN
+  obtain ⟨n1, n2, n3, n4, n5, n6, n7, n8, n9, n10, n11, n12, n13, n14, n15⟩ := hN
   obtain ⟨h1, h2, h3⟩ := h
   have hpcs := n12 h2
   rcases own_step_class hc r0 st (.inl h2) with hcont | ⟨hnone, hret⟩
   · left
-    obtain ⟨c1, c2, c3, c4, c5, c6, c7, c8, c9, c10⟩ := hcont
+    obtain ⟨c1, c2, c3, c4, c5, c6, c7, c8, c9, c10, c11⟩ := hcont
     refine ⟨by rw [c1, h2]; simp, ?_⟩
     have hcur : curOp (s'.th t) = some op := by simp only [curOp, c1, c2, c3, c4, c5] at h1 ⊢; simp only [h2] at h1 ⊢; exact h1
     by_cases hq : ∃ q, r = .node q ∧ (((s'.th t).pc = .wAssert ∧ (s'.th t).cur = q ∧ (s'.th t).mode = .uniq) ∨
